@@ -455,7 +455,7 @@ def plan_pairs(nq, tier, rng, primary):
     if tier == "quick":
         n = 900 if primary else 450
     else:
-        n = 3000 if primary else 1200
+        n = 8000 if primary else 3000
     total = nq * nq
     if total <= n:
         return [(i, j) for i in range(nq) for j in range(nq)]
@@ -468,7 +468,7 @@ def plan_pairs(nq, tier, rng, primary):
 PRIMARY = {"Network/undirected", "Network/directed", "GeoNetwork", "ClimateNetwork", "TsonisClimateNetwork",
            "ResNetwork", "RecurrenceNetwork", "JointRecurrenceNetwork", "InterSystemRecurrenceNetwork",
            "InteractingNetworks/undirected", "HavlinClimateNetwork", "MutualInfoClimateNetwork",
-           "HilbertClimateNetwork"}
+           "HilbertClimateNetwork", "Network/disconnected", "InteractingNetworks/disconnected"}
 
 
 def work(task):
@@ -510,7 +510,7 @@ def work(task):
                     order = [qs[h]] + [qs[(h + 1 + k) % nq] for k in range(nq - 1)]
                     eng.chain(order, "chain")
                 #  random sequences
-                nseq = (60 if primary else 30) if tier == "quick" else (200 if primary else 80)
+                nseq = (60 if primary else 30) if tier == "quick" else (400 if primary else 150)
                 seqs = [[qs[int(v)] for v in rng.randint(nq, size=int(rng.randint(3, 7)))] for _ in range(nseq)]
                 for sq in seqs[part::nparts]:
                     eng.chain(sq, "seq")
@@ -546,7 +546,7 @@ def main():
              "every public query with name-based argument patterns (incl. link attribute 'w' present via "
              "a set_link_attribute call, typical_weight=2.0, node lists).  quick: all single queries, 450-900 seeded cold "
              "ordered pairs, 15-30 'q1 then all' chains and 30-60 random sequences (length 3-6) per class; "
-             "thorough: 1200-3000 cold pairs, a chain for every q1 (all ordered pairs in context) and 80-200 "
+             "thorough: 3000-8000 cold pairs, a chain for every q1 (all ordered pairs in context) and 150-400 "
              "sequences per class.  Plus: constructor purity for every class, 7x7 shared-ClimateData "
              "constructor orders, 25 static helpers, Surrogates significance tests (#11).  Values: exact for "
              "integers, rtol 1e-9 float64 / 1e-5 float32; snapshots bit-exact.")
